@@ -336,7 +336,8 @@ def run_program(ctx, calls, notations, client_async, disp_async, idgen, strict, 
 
 def gen(ctx):
     rng = ctx.rng
-    full = ctx.thorough
+    deep = ctx.thorough
+    full = True
     pool = call_pool(rng, full)
     positional_ok = [c for c in pool if c[1] == 'args']
     cfgs = [(ca, da) for ca in (False, True) for da in (False, True)]
@@ -356,7 +357,7 @@ def gen(ctx):
         for _ in range(2 if full else 1):
             yield 'program', dict(calls=[c], notations=NOTATIONS_SINGLE, **cfg())
     # batches of 1..4 mixing calls and notifications
-    n_batches = 12000 if full else 900
+    n_batches = 150000 if deep else 10000
     for _ in range(n_batches):
         n = rng.randint(1, 4)
         positional_only = rng.random() < 0.5
